@@ -783,7 +783,8 @@ func wfHeapAxiom(h, fullSort, next string) string {
 		if w == "" {
 			return ""
 		}
-		return fmt.Sprintf("(assert (forall ((r Ref)) (! %s :pattern ((select %s r)))))", w, h)
+		// only for objects that exist: the cells of not-yet-allocated objects are what later allocations initialise
+		return fmt.Sprintf("(assert (forall ((r Ref)) (! (=> (alloc r %s) %s) :pattern ((select %s r)))))", next, w, h)
 	}
 	// map value heap: (Array K V)
 	if strings.HasPrefix(inner, "(Array ") {
@@ -793,7 +794,7 @@ func wfHeapAxiom(h, fullSort, next string) string {
 			if w == "" {
 				return ""
 			}
-			return fmt.Sprintf("(assert (forall ((r Ref) (k %s)) (! %s :pattern ((select (select %s r) k)))))", kv[0], w, h)
+			return fmt.Sprintf("(assert (forall ((r Ref) (k %s)) (! (=> (alloc r %s) %s) :pattern ((select (select %s r) k)))))", kv[0], next, w, h)
 		}
 	}
 	return ""
